@@ -34,6 +34,10 @@ Accepted(c) ==
   \* one-site schemes on a density operator created from a state keep the state's bonds: covered with full-bond purifications
   /\ (c.form = "mpdm" => c.scheme \in {"pc_taylor", "pc_rk4", "ps", "ps2", "mu_vmf"} /\ ~c.td /\ c.gauge = "fresh")
   /\ (c.gauge # "fresh" => c.form = "mps")
+  \* overlap forcing on the vectorised density operator makes the VMF equations extremely stiff (minutes per step): not explored
+  /\ (c.form = "mpdm" /\ c.scheme = "mu_vmf" => ~c.force_ovlp)
+  \* adaptive CMF costs ~100 local evolutions per call: explored from the default gauge only
+  /\ (c.adaptive /\ c.scheme = "cmf" => c.gauge = "fresh")
   \* the propagate-and-compress family canonicalises/compresses its input, which ASSERTS that the quantum-number centre sits
   \* at the start of the sweep (mp.py:911): a moved centre is outside their accepted inputs
   /\ (c.gauge \in {"moved", "skew"} => c.scheme \in {"ps", "ps2", "vmf", "mu_vmf", "cmf"})
